@@ -41,8 +41,10 @@ def ev? (t : String) : Option Ev :=
 structure St where
   cfg : Cfg := {}
   sc : Scripts := []
-  deps : Option (List Nat) := none   -- the dependencies the task was stored with (first execution of the case)
-  done : Bool := false               -- the task was executed successfully and removed from the table
+  stored : Option (Nat × List Nat × Bool) := none   -- the stored task: image digest, dependencies, failed?
+  everAdded : Bool := false
+  -- impl-side ghost: the (image digest, dependencies) pairs the harness handed to Add in this case
+  added : List (Nat × List Nat) := []
 
 def parseCfg (toks : List String) : Option St := do
   let reps := ((kv? toks "reps").bind nat?).getD 1
@@ -58,8 +60,10 @@ def parseCfg (toks : List String) : Option St := do
   pure { cfg := { replicas := List.range reps, bo := bo }, sc := sc }
 
 /-- the property's predicate on a request log: a PUT only after a 200 replicate answer for every
-dependency, and a reported success only if the remote has the tag or accepted the PUT -/
-def check (deps : List Nat) (ok : Bool) (tr : List Ev) : List String :=
+dependency of the image that is PUT (`depSets`: the dependency lists that image was added with; `none`:
+the image is not one that was added), and a reported success only if the remote has the tag or accepted
+the PUT -/
+def check (depSets : Option (List (List Nat))) (putd : String) (ok : Bool) (tr : List Ev) : List String :=
   let rec go (es : List Ev) (conf : List Nat) (acc : List String) : List String :=
     match es with
     | [] => acc
@@ -67,9 +71,12 @@ def check (deps : List Nat) (ok : Bool) (tr : List Ev) : List String :=
       match e.ep, e.resp with
       | .rep d _, .ok => go es (d :: conf) acc
       | .put, _ =>
-        let missing := deps.filter (· ∉ conf)
-        go es conf (if missing = [] then acc else
-          acc ++ [s!"side=impl key=put-before-blobs the tag was PUT to the remote index before dependencies {missing.map (s!"d{·}")} were confirmed (200) by the origin cluster"])
+        match depSets with
+        | none => go es conf (acc ++ [s!"side=impl key=put-of-unknown-digest the tag was PUT to the remote index with image {putd}, which no Add handed to the store"])
+        | some sets =>
+          if sets.any (fun deps => deps.all (· ∈ conf)) then go es conf acc else
+          let missing := (sets.headD []).filter (· ∉ conf)
+          go es conf (acc ++ [s!"side=impl key=put-before-blobs the tag was PUT to the remote index with image {putd} before its dependencies {missing.map (s!"d{·}")} were confirmed (200) by the origin cluster"])
       | _, _ => go es conf acc
   let pf := go tr [] []
   let hasOk := tr.head? == some ⟨.has, .ok⟩
@@ -77,26 +84,80 @@ def check (deps : List Nat) (ok : Bool) (tr : List Ev) : List String :=
   pf ++ (if ok ∧ ¬ hasOk ∧ ¬ putOk then
     ["side=impl key=success-without-tag Exec reported success although the remote index neither has the tag nor accepted the PUT"] else [])
 
+def img? (t : String) : Option Nat :=
+  match t.toList with
+  | 'g' :: ds => (String.ofList ds).toNat?
+  | _ => none
+
+def depsTok (deps : List Nat) : String := if deps = [] then "none" else ".".intercalate (deps.map (s!"d{·}"))
+
+def rowTok : Option (Nat × List Nat × Bool) → String
+  | none => "row=-"
+  | some (g, deps, failed) => s!"row=g{g}:{depsTok deps}:{if failed then "f" else "p"}"
+
+/-- the stored task the implementation shows must be a task that was added: its image digest together
+with the dependency list it was added with -/
+def rowMonitor (added : List (Nat × List Nat)) (impl : List String) : List String :=
+  (list? ((kv? impl "row").getD "-")).filterMap fun r =>
+    match r.splitOn ":" with
+    | [g, dl, _] =>
+      let deps := if dl = "none" then some [] else (dl.splitOn ".").mapM dig?
+      match img? g, deps with
+      | some gi, some ds =>
+        if (gi, ds) ∈ added then none else
+        some s!"side=impl key=payload-changed the stored task is image {g} with dependencies {dl}; the tasks added were {added.map fun (a, b) => s!"g{a}:{depsTok b}"}"
+      | _, _ => some s!"side=impl key=payload-changed unreadable stored task {r}"
+    | _ => some s!"side=impl key=payload-changed unreadable stored task {r}"
+
 def step (s : St) (kind : String) (args impl : List String) : Option (St × StepOut) :=
   if kind ≠ "op" then none else
+  let doAdd (s : St) (g : Nat) (deps : List Nat) (failed : Bool) : St × Bool :=
+    let s := { s with everAdded := true, added := if (g, deps) ∈ s.added then s.added else s.added ++ [(g, deps)] }
+    match s.stored with
+    | some _ => (s, false)                              -- ErrTaskExists: no further effect
+    | none => ({ s with stored := some (g, deps, failed) }, true)
+  let doExec (s : St) : Option (St × StepOut) :=
+    match s.stored with
+    | none => pure (s, { obs := ["gone", "trace=-", "putd=-", "row=-"], branch := "exec.gone" })
+    | some (g, deps, _) =>
+      let r := exec s.cfg ⟨deps⟩ s.sc
+      let s' := { s with sc := r.scripts, stored := if r.ok then none else some (g, deps, true) }
+      let put := r.trace.any (·.ep == .put)
+      let obs := [if r.ok then "ok" else "err", "trace=" ++ listTok (r.trace.map evTok),
+        "putd=" ++ (if put then s!"g{g}" else "-"), rowTok s'.stored]
+      let implTr := ((kv? impl "trace").map list?).getD []
+      let putd := (kv? impl "putd").getD "-"
+      let depSets : Option (List (List Nat)) := match img? putd with
+        | some gi => let l := (s.added.filter (·.1 = gi)).map (·.2); if l = [] then none else some l
+        | none => none
+      let pf := match implTr.mapM ev? with
+        | some tr => check depSets putd (impl.head? == some "ok") tr
+        | none => [s!"side=impl key=unexpected-request the executor made a request outside its protocol: {implTr}"]
+      let retag := s.added.length > 1
+      let br := (if r.trace.length = 1 then "exec.has"
+        else if put then (if r.ok then "exec.put.ok" else "exec.put.fail")
+        else if r.trace.length = 2 ∧ deps ≠ [] then "exec.origin.fail"
+        else if r.trace.any (fun e => e.resp == .accepted) then "exec.rep.fail.202" else "exec.rep.fail") ++ (if retag then ".retagged" else "")
+      pure (s', { obs, branch := br, propfails := pf ++ rowMonitor s.added impl })
   match args with
+  | "add" :: gt :: dt :: rest => do
+    let g ← img? gt
+    let deps ← ((kv? [dt] "deps").map list?)
+    let deps ← deps.mapM dig?
+    let failed := rest == ["st=f"]
+    if rest ≠ [] ∧ ¬ failed then none else
+    let (s', fresh) := doAdd s g deps failed
+    pure (s', { obs := [if fresh then "ok" else "exists", rowTok s'.stored],
+                branch := if fresh then (if failed then "add.failed" else "add.pending")
+                          else if s.stored.map (·.1) == some g then "add.exists.same-image" else "add.exists.other-image",
+                propfails := rowMonitor s'.added impl })
+  | ["exec"] => doExec s
   | ["exec", dt] => do
     let deps ← ((kv? [dt] "deps").map list?)
     let deps ← deps.mapM dig?
-    -- the task is stored once; retries run the stored task
-    let deps := s.deps.getD deps
-    if s.done then pure (s, { obs := ["gone", "trace=-"], branch := "exec.gone" }) else
-    let r := exec s.cfg ⟨deps⟩ s.sc
-    let obs := [if r.ok then "ok" else "err", "trace=" ++ listTok (r.trace.map evTok)]
-    let implTr := ((kv? impl "trace").map list?).getD []
-    let pf := match implTr.mapM ev? with
-      | some tr => check deps (impl.head? == some "ok") tr
-      | none => [s!"side=impl key=unexpected-request the executor made a request outside its protocol: {implTr}"]
-    let br := if r.trace.length = 1 then "exec.has"
-      else if r.trace.any (·.ep == .put) then (if r.ok then "exec.put.ok" else "exec.put.fail")
-      else if r.trace.length = 2 ∧ deps ≠ [] then "exec.origin.fail"
-      else if r.trace.any (fun e => e.resp == .accepted) then "exec.rep.fail.202" else "exec.rep.fail"
-    pure ({ s with sc := r.scripts, deps := some deps, done := r.ok }, { obs, branch := br, propfails := pf })
+    -- the plain form adds the task (image g0) when nothing was added in the case yet
+    let s := if s.everAdded then s else (doAdd s 0 deps false).1
+    doExec s
   | _ => none
 
 def machine : Machine := { σ := St, name := "tagrepl", init := parseCfg, step := step }
